@@ -454,7 +454,7 @@ def check_C11(F, tier, t0):
     R = Report('C11')
     guarded(R, 'X5', engine_x.rule_X5, F, R)
     guarded(R, 'X3', engine_x.rule_X3, F, R)
-    guarded(R, 'X4', engine_x.rule_X4, F, R, ('order', 'export'))
+    guarded(R, 'X4', engine_x.rule_X4, F, R, ('order', 'export', 'vars'))
     guarded(R, 'H', engine_e.rule_H, F, R)
     # the semantic core: every operation is proved for an arbitrary total order of an arbitrary symbol type (C01 / C03 / C04 / C05)
     E = make_engine(F)
